@@ -5,7 +5,7 @@
 //	la.new <n> <I> <t0>                      fresh BucketLeapArray(n, I) created at clock t0 (ms)
 //	view <sc> <Iv>                           the SlidingWindowMetric used by `viewsum` (default 1 x I)
 //	thread <tid> <clock-ms> <op> [; <op>]…   thread of the next round, started at that clock reading
-//	                                         ops: add <ev> <amt> | conc <c> | count <ev> | viewsum <ev>
+//	                                         ops: add <ev> <amt> | conc <c> | count <ev> | values <ev> | viewsum <ev>
 //	sched <tid | tick:<ms>>…                 run the round => [round] res=[…|…] pts=[…|…] final=[…] clock=<ms>
 //	stress <writers> <readers> <adds> <n> <I> <seed>   => ok | bad …
 package c09
@@ -13,6 +13,7 @@ package c09
 import (
 	"fmt"
 	"math/rand"
+	"runtime"
 	"strings"
 	"sync"
 	"sync/atomic"
@@ -41,6 +42,8 @@ type Interp struct {
 	la      *sbase.BucketLeapArray
 	view    *sbase.SlidingWindowMetric
 	threads []thread
+	// poisoned: a round of this process ended with a worker blocked for ever; see round()
+	poisoned bool
 }
 
 func New() vh.Interp {
@@ -86,6 +89,8 @@ func parseProg(t []string) []opSpec {
 			prog = append(prog, opSpec{"conc", 0, int64(vh.U(o[1]))})
 		case len(o) == 2 && o[0] == "count":
 			prog = append(prog, opSpec{"count", ev(o[1]), 0})
+		case len(o) == 2 && o[0] == "values":
+			prog = append(prog, opSpec{"values", ev(o[1]), 0})
 		case len(o) == 2 && o[0] == "viewsum":
 			prog = append(prog, opSpec{"viewsum", ev(o[1]), 0})
 		default:
@@ -152,6 +157,33 @@ func (it *Interp) Step(t []string, op string) string {
 	return "bad-op"
 }
 
+// blockedWorker inspects all goroutines: returns the wait state of a worker of the current round that is blocked in a
+// synchronisation primitive ("" if none), and the number of workers still alive.
+func blockedWorker() (string, int) {
+	buf := make([]byte, 1<<20)
+	n := runtime.Stack(buf, true)
+	state, alive := "", 0
+	for _, g := range strings.Split(string(buf[:n]), "\n\n") {
+		if !strings.Contains(g, "c09.(*Interp).round.func") || strings.Contains(g, "sched.Run(") {
+			continue
+		}
+		alive++
+		hdr := g
+		if i := strings.Index(g, "\n"); i >= 0 {
+			hdr = g[:i]
+		}
+		a, b := strings.Index(hdr, "["), strings.Index(hdr, "]")
+		if a < 0 || b < a {
+			continue
+		}
+		st := strings.Split(hdr[a+1:b], ",")[0]
+		if strings.HasPrefix(st, "sync.") || strings.HasPrefix(st, "semacquire") {
+			state = st
+		}
+	}
+	return state, alive
+}
+
 func (it *Interp) round(es []sched.Entry) string {
 	ths := it.threads
 	it.threads = nil
@@ -171,6 +203,14 @@ func (it *Interp) round(es []sched.Entry) string {
 					it.la.UpdateConcurrency(int32(o.amt))
 				case "count":
 					val = fmt.Sprint(it.la.Count(o.ev))
+				case "values":
+					// BucketLeapArray.Values(now) + the caller's own summation: the same refresh, scan and per-bucket loads
+					// (and the same yield points) as Count, through the other exported entry point
+					sum := int64(0)
+					for _, w := range it.la.Values(now) {
+						sum += w.Value.Load().(*sbase.MetricBucket).Get(o.ev)
+					}
+					val = fmt.Sprint(sum)
 				case "viewsum":
 					val = fmt.Sprint(it.view.GetSum(o.ev))
 				}
@@ -178,13 +218,49 @@ func (it *Interp) round(es []sched.Entry) string {
 			}
 		}
 	}
-	rep := sched.Run(workers, es, sched.Options{
-		Prefixes:    []string{"la.", "bla.", "mb."},
-		BeforeStart: func(tid int) { it.clk.SetMs(ths[tid].clock) },
-		OnTick:      func(ms uint64) { it.clk.Ns += ms * 1e6 },
-		StepTimeout: 5 * time.Minute,
-		MaxSteps:    20000, // a legitimate round takes a few hundred steps; a livelock must end quickly
-	})
+	if it.poisoned {
+		// an earlier round of this process left a worker blocked for ever (and the scheduler's goroutine waiting for it):
+		// no further round can be scheduled in this process
+		return "sched-skipped (an earlier round of this run blocked)"
+	}
+	done := make(chan *sched.Report, 1)
+	go func() {
+		done <- sched.Run(workers, es, sched.Options{
+			Prefixes:    []string{"la.", "bla.", "mb."},
+			BeforeStart: func(tid int) { it.clk.SetMs(ths[tid].clock) },
+			OnTick:      func(ms uint64) { it.clk.Ns += ms * 1e6 },
+			StepTimeout: 5 * time.Minute,
+			MaxSteps:    20000, // a legitimate round takes a few hundred steps; a livelock must end quickly
+		})
+	}()
+	// Watchdog by goroutine *state*, not by time (a loaded or paused sandbox never looks blocked): exactly one worker runs at
+	// any moment, the others are parked inside a yield hook; if the running one sits in a blocking synchronisation primitive
+	// (sync.Mutex / RWMutex / semaphore) over several polls, whoever could release it is parked — it will never return.
+	var rep *sched.Report
+	tick := time.NewTicker(100 * time.Millisecond)
+	defer tick.Stop()
+	blockedPolls := 0
+wait:
+	for {
+		select {
+		case rep = <-done:
+			break wait
+		case <-tick.C:
+			state, alive := blockedWorker()
+			if state == "" {
+				blockedPolls = 0
+				continue
+			}
+			blockedPolls++
+			if blockedPolls >= 5 {
+				it.poisoned = true
+				if alive <= 1 {
+					return "sched-error deadlock: the only live thread is blocked for ever in " + state
+				}
+				return "sched-blocked: a thread blocks in " + state + " while the lock's holder is parked at a yield point inside the critical section (the schedule cannot be replayed at this granularity)"
+			}
+		}
+	}
 	if rep.Err != nil {
 		return "sched-error " + strings.ReplaceAll(rep.Err.Error(), "\n", " ")
 	}
